@@ -111,6 +111,16 @@ class LockAnalysis:
         if k == "AutoDtor" and n.get("rt") in GUARD_CLASSES:
             guards = frozenset(g for g in guards if g[0] != n.d["d"])
             return [(guards, fresh)]
+        # a local that is (re)assigned the result of a fresh source holds an unpublished object from there on; assigned
+        # anything else it no longer does (`if(auto slb = head; slb) ... else { slb = _construct_slab(index); ... }`)
+        if k == "BinaryOperator" and n.op == "=":
+            l = n.children[0].strip()
+            if l.kind == "DeclRefExpr" and l.get("local"):
+                r = n.children[1].strip()
+                if (r.is_call() and r.callee and r.callee["uq"] in self.fresh_sources) or r.kind == "CXXNewExpr":
+                    return [(guards, fresh | {l.d["d"]})]
+                if l.d["d"] in fresh:
+                    fresh = fresh - {l.d["d"]}
         # publication of fresh objects: passed as an argument or stored somewhere
         if fresh:
             if n.is_call():
